@@ -42,6 +42,16 @@ def main():
     rc, out = sh(f"git -C /repo worktree add -q --detach {wt} HEAD")
     assert rc == 0, out
     meta = {"property": prop, "name": name, "repo_head": sh("git -C /repo rev-parse --short HEAD")[1].strip(), "ran": []}
+    old_meta = {}
+    if os.path.exists(os.path.join(dst, "meta.json")):
+        old_meta = json.load(open(os.path.join(dst, "meta.json")))
+    for k in ("summary", "needs", "first_verdict_with_committed_check"):
+        if k in old_meta:
+            meta[k] = old_meta[k]
+    if "--skip-tests" in flags:  # the suite result of the earlier full evaluation still stands (same patch, same tree)
+        for k in ("suite_pass", "suite_tail"):
+            if old_meta.get(k) is not None:
+                meta[k] = old_meta[k]
     env = dict(os.environ, PYTHONPATH=wt, PYTHONDONTWRITEBYTECODE="1")
     env.pop("SOLVOR_VERIF", None)
     patch = open(os.path.join(dst, "patch.diff")).read()
